@@ -469,6 +469,14 @@ pub fn run(thorough: bool) -> Outcome {
             }
         }
     }
+    // subnet filters that list several blocks, nested in either order, repeated, disjoint (on their own: no port or address part)
+    for deny in [false, true] {
+        for nets in [vec!["10.0.0.0/24", "10.0.0.0/8"], vec!["10.0.0.0/8", "10.0.0.0/24"], vec!["10.0.0.1/32", "0.0.0.0/0"], vec!["0.0.0.0/0", "10.0.0.1/32"], vec!["2001:db8::/127", "2001:db8::/64"], vec!["2001:db8::1/128", "::/0"], vec!["10.0.0.0/24", "10.0.0.0/24"], vec!["10.0.0.0/31", "11.0.0.0/8", "10.0.0.0/24"], vec!["10.0.0.0/31", "2001:db8::/127", "10.0.0.0/8", "2001:db8::/32"]] {
+            for (s, d) in sides() {
+                cfgs.push(Cfg { deny, pf: None, af: None, sf: Some(AF { addrs: nets.iter().map(|x| x.to_string()).collect(), src: s, dst: d }) });
+            }
+        }
+    }
     let krates = ["tcp", "http", "tls"];
     let report = par_slices(cfgs.len(), 256, |range| {
         let mut r = Report::new();
@@ -509,7 +517,7 @@ pub fn run(thorough: bool) -> Outcome {
     check_port_forms(&mut report);
     Outcome {
         report,
-        rule: "every filter configuration of the alphabet x every same-family endpoint pair x every port pair, on the three filter.rs copies; builder forms: address and subnet filters built from new() / default(), with every sequence of up to three side selectors, addresses added before or after them, installed after a decoy filter and with the mode set twice (the last call decides) x every endpoint pair; port filters built by the 120 orders of five builder calls, any_port() absent / first / last, single ports as port / list / one-port range, with empty ranges, x 24 x 24 port pairs; distinct = distinct truth tables over the endpoint alphabet".into(),
+        rule: "every filter configuration of the alphabet x every same-family endpoint pair x every port pair, on the three filter.rs copies; subnet filters with several blocks (nested in either order, repeated, disjoint, both families); builder forms: address and subnet filters built from new() / default(), with every sequence of up to three side selectors, addresses added before or after them, installed after a decoy filter and with the mode set twice (the last call decides) x every endpoint pair; port filters built by the 120 orders of five builder calls, any_port() absent / first / last, single ports as port / list / one-port range, with empty ranges, x 24 x 24 port pairs; distinct = distinct truth tables over the endpoint alphabet".into(),
         exhaustive: true,
         bounds: json!({"configurations": cfgs.len(), "crates": krates, "addresses": ips.len(), "ports": ports}),
     }
